@@ -22,7 +22,8 @@ CONSTANTS JmpCapacity,     \* slots in the setjmp stack (10 in UtestPlatform.cpp
           OrderStrict      \* TRUE: without shuffling, every repetition runs in the same (possibly reversed) order - the documented
                            \* meaning of -b / -r (C12); FALSE: any permutation is accepted (all that C02 states)
 
-VARIABLES reg,       \* Seq([g, n, ign]) : group, name (sequences of characters), IGNORE_TEST?
+VARIABLES reg,       \* Seq([g, n, ign, after]) : group, name (sequences of characters), IGNORE_TEST?, and the plugin installations /
+                     \* removals ([op, name]) made between this test and the next one while the run is going on
           script,    \* [1..Len(reg) -> [setup, body, teardown : Phase] or "unset"]; Phase = [sets : Seq([loc, val]), ev : Seq(outcome)], one outcome per repetition (the last one repeats)
           cfg,       \* [repeat, reverse, shuffle, runIgnored, gf, nf, plugins]
           order,     \* current linked-list order of the registry: Seq of indices into reg
@@ -256,10 +257,19 @@ SetPtrPost ==
     /\ Pop                                   \* helperDoRunOneTest returns: the outer SetJmp pops
     /\ pc' = "tend" /\ Silent
     /\ UNCHANGED <<reg, script, cfg, order, rep, pos, ph, k, setupOk, grpStart, cnt, hasFailed, accFail, accExec, exitv, g>>
+\* TestRegistry::installPlugin prepends; removePluginByName removes exactly the plugin with that name wherever it is
+RECURSIVE ApplyChainOps(_, _)
+ApplyChainOps(chain, ops) ==
+    IF ops = <<>> THEN chain
+    ELSE LET o == Head(ops) IN
+         ApplyChainOps(IF o.op = "install" THEN <<[name |-> o.name, enabled |-> TRUE, err |-> FALSE]>> \o chain
+                       ELSE SelectSeq(chain, LAMBDA p : p.name # o.name), Tail(ops))
+\* the test is over (currentTestEnded); plugins installed or removed now, in the middle of the run, take effect from the next test on
 TestEnd ==
     /\ pc = "tend" /\ pc' = "gend"
     /\ Emit([op |-> "testEnd", t |-> Cur, jmp |-> jmp, cnt |-> cnt, ptr |-> ptr])
-    /\ UNCHANGED <<reg, script, cfg, order, rep, pos, ph, k, setupOk, grpStart, jmp, cnt, hasFailed, accFail, accExec, exitv, ptr, table, g>>
+    /\ cfg' = [cfg EXCEPT !.plugins = ApplyChainOps(@, reg[Cur].after)]
+    /\ UNCHANGED <<reg, script, order, rep, pos, ph, k, setupOk, grpStart, jmp, cnt, hasFailed, accFail, accExec, exitv, ptr, table, g>>
 GroupEnd ==
     /\ pc = "gend" /\ EndOfGroup
     /\ grpStart' = TRUE /\ pos' = pos + 1 /\ pc' = "loop" /\ Emit([op |-> "groupEnd", t |-> Cur])
